@@ -330,6 +330,24 @@ def m_and_then(ex, st, callee, args, dest_ty):
             yield from call_fn_value(ex, st2, f, [v.alts[good][0]])
 
 
+def m_opt_filter(ex, st, callee, args, dest_ty):
+    """Option::filter(pred): Some(x) stays iff pred(&x)"""
+    v, f = args
+    for st2 in ex.branch(st, v.disc != 1):
+        yield st2, none(v.ty)
+    if "Some" in v.alts:
+        for st2 in ex.branch(st, v.disc == 1):
+            x = v.alts["Some"][0]
+            for o in call_fn_value(ex, st2, f, [Ref(ex.new_cell(st2, x, "filter_arg"))]):
+                if o.kind != "return":
+                    yield o
+                    continue
+                for st3 in ex.branch(o.st, o.value.e):
+                    yield st3, En(v.ty, z3.IntVal(1), {"Some": (x,)})
+                for st3 in ex.branch(o.st, z3.Not(o.value.e)):
+                    yield st3, none(v.ty)
+
+
 def m_fn_call(ex, st, callee, args, dest_ty):
     """<F as Fn/FnMut/FnOnce<Args>>::call*(f, (args,))"""
     f = args[0]
@@ -987,6 +1005,7 @@ BASE_MODELS = [
     (R(r"^(Option|Result)::<.*>::map_or::<.*>$"), m_map_or),
     (R(r"^(Option|Result)::<.*>::or_else::<.*>$"), m_or_else),
     (R(r"^(Option|Result)::<.*>::and_then::<.*>$"), m_and_then),
+    (R(r"^Option::<.*>::filter::<.*>$"), m_opt_filter),
     (R(r"^<(i|u)(\d+|size) as TryFrom<(i|u)(\d+|size)>>::try_from$"), m_int_try_from),
     (R(r" as Fn(Mut|Once)?<.*>>::call(_mut|_once)?$"), m_fn_call),
     (R(r"^core::num::<impl i\d+>::abs$|^core::num::<impl isize>::abs$"), m_int_abs),
